@@ -448,7 +448,7 @@ class FB:
         if base == "bswap":
             cands = [I16, I32, I64]
         t = t or rng.choice(cands)
-        suffix = rng.random() < 0.85 or base.endswith(".with.overflow")
+        suffix = rng.random() < 0.85 or base.endswith(".with.overflow") or base in ("ctlz", "cttz", "abs", "expect")
         name = f"llvm.{base}" + (f".{t.mlir}" if suffix else "")
         nargs = 3 if base in ("fshl", "fshr") else 1 if base in ("ctpop", "bswap", "bitreverse") else 2
         args = [self.pick(t) for _ in range(nargs)]
